@@ -1,5 +1,6 @@
 use super::{
     DataOrder, OutOfBoundsError, RawData, RawU1, RawU16, RawU2, RawU24, RawU32, RawU4, RawU8,
+    ToBytes,
 };
 
 pub(crate) trait LoadStore<O: DataOrder>: Sized {
@@ -86,7 +87,11 @@ impl<O: DataOrder> LoadStore<O> for RawU16 {
     }
 
     fn store(self, buffer: &mut [u8], index: usize) -> Result<(), OutOfBoundsError> {
-        let bytes = self.into_inner().to_le_bytes();
+        let bytes = if O::IS_ALTERNATE_ORDER {
+            self.to_be_bytes()
+        } else {
+            self.to_le_bytes()
+        };
 
         buffer
             .get_mut(index * 2..)
@@ -119,13 +124,17 @@ impl<O: DataOrder> LoadStore<O> for RawU24 {
     }
 
     fn store(self, buffer: &mut [u8], index: usize) -> Result<(), OutOfBoundsError> {
-        let bytes = self.into_inner().to_le_bytes();
+        let bytes = if O::IS_ALTERNATE_ORDER {
+            self.to_be_bytes()
+        } else {
+            self.to_le_bytes()
+        };
 
         buffer
             .get_mut(index * 3..)
             .and_then(|buffer| buffer.get_mut(0..3))
             .ok_or(OutOfBoundsError)
-            .map(|buffer| buffer.copy_from_slice(&bytes[0..3]))
+            .map(|buffer| buffer.copy_from_slice(&bytes))
     }
 }
 
@@ -148,7 +157,11 @@ impl<O: DataOrder> LoadStore<O> for RawU32 {
     }
 
     fn store(self, buffer: &mut [u8], index: usize) -> Result<(), OutOfBoundsError> {
-        let bytes = self.into_inner().to_le_bytes();
+        let bytes = if O::IS_ALTERNATE_ORDER {
+            self.to_be_bytes()
+        } else {
+            self.to_le_bytes()
+        };
 
         buffer
             .get_mut(index * 4..)
